@@ -85,6 +85,9 @@ pub struct Scn {
     pub duration_ms: u64,
     pub conns: Vec<WConn>,
     pub faults: Vec<PF>,
+    /// access-list reloads: (at ms, new list, file has a malformed line = the reload must fail)
+    #[serde(default)]
+    pub reloads: Vec<(u32, Vec<u8>, bool)>,
     /// privileges.drop_privileges: the socket workers rendezvous at a barrier after binding (the chroot itself is not simulated)
     #[serde(default)]
     pub drop_priv: bool,
@@ -146,6 +149,43 @@ struct Collected {
     run_returned: Option<(u64, Result<(), String>)>,
     end_ns: u64,
     final_scrape: Vec<(bool, BTreeMap<u8, (i64, i64)>)>,
+}
+
+fn permits(mode: u8, list: &[u8], t: u8) -> bool {
+    match mode {
+        1 => list.contains(&t),
+        2 => !list.contains(&t),
+        _ => true,
+    }
+}
+
+/// torrents whose permission differs between the initial list and some list a (well-formed) reload installs
+fn dynamic_torrents(scn: &Scn) -> BTreeSet<u8> {
+    let mut d = BTreeSet::new();
+    for (_, l, bad) in &scn.reloads {
+        if !*bad {
+            for t in 0..16u8 {
+                if permits(scn.access_mode, l, t) != permits(scn.access_mode, &scn.access_list, t) {
+                    d.insert(t);
+                }
+            }
+        }
+    }
+    d
+}
+
+fn list_file(list: &[u8], bad: bool) -> String {
+    let mut s = String::new();
+    for t in list {
+        for b in info_hash(*t) {
+            s.push_str(&format!("{:02x}", b));
+        }
+        s.push('\n');
+    }
+    if bad {
+        s.push_str("nope\n");
+    }
+    s
 }
 
 fn build_config(scn: &Scn, dir: &std::path::Path) -> Config {
@@ -308,8 +348,10 @@ fn client_main(idx: usize, scn: Arc<Scn>, col: Arc<Mutex<Collected>>) {
         _ => true,
     };
     // returns (refused): does this announce use a second peer id for a torrent in use?
+    let dyn_t = dynamic_torrents(&scn);
     let mut book = |cur: &mut BTreeMap<u8, usize>, t: u8, pidc: usize, stopped: bool| -> bool {
-        if !allowed_t(t) {
+        // (scripts use only the connection's own peer id on torrents whose permission changes with a reload)
+        if !allowed_t(t) || dyn_t.contains(&t) {
             return false;
         }
         match cur.get(&t) {
@@ -497,14 +539,8 @@ fn client_main(idx: usize, scn: Arc<Scn>, col: Arc<Mutex<Collected>>) {
 fn sim_root(scn: Arc<Scn>, col: Arc<Mutex<Collected>>) {
     let dir = fs::scratch_dir();
     let config = build_config(&scn, &dir);
-    let mut s = String::new();
-    for t in &scn.access_list {
-        for b in info_hash(*t) {
-            s.push_str(&format!("{:02x}", b));
-        }
-        s.push('\n');
-    }
-    std::fs::write(&config.access_list.path, s).unwrap();
+    std::fs::write(&config.access_list.path, list_file(&scn.access_list, false)).unwrap();
+    let list_path = config.access_list.path.clone();
     let mut plan = fault::Plan::default();
     let mut sig_close = None;
     for f in &scn.faults {
@@ -531,10 +567,28 @@ fn sim_root(scn: Arc<Scn>, col: Arc<Mutex<Collected>>) {
         let (s, c) = (scn.clone(), col.clone());
         hs.push(thread::spawn_named(&format!("client-{}", i), move || client_main(i, s, c)));
     }
-    if let Some(ms) = sig_close {
+    if sig_close.is_some() || !scn.reloads.is_empty() {
+        let s = scn.clone();
         hs.push(thread::spawn_named("operator", move || {
-            thread::sleep(Duration::from_millis(ms));
-            signal::close();
+            let mut ops: Vec<(u64, Option<(Vec<u8>, bool)>)> = s.reloads.iter().map(|(at, l, bad)| (*at as u64, Some((l.clone(), *bad)))).collect();
+            if let Some(ms) = sig_close {
+                ops.push((ms, None));
+            }
+            ops.sort_by_key(|o| o.0);
+            for (at, o) in ops {
+                let now_ms = engine::now() / 1_000_000;
+                if at > now_ms {
+                    thread::sleep(Duration::from_millis(at - now_ms));
+                }
+                match o {
+                    Some((l, bad)) => {
+                        std::fs::write(&list_path, list_file(&l, bad)).unwrap();
+                        engine::log("operator-reload", l.len() as u64, bad as u64);
+                        signal::raise(10);
+                    }
+                    None => signal::close(),
+                }
+            }
         }));
     }
     // quiescence, then two observers (IPv4 and IPv6 source) scrape every torrent
@@ -653,6 +707,30 @@ impl Harness for WsSys {
                 faults.push(f);
             }
         }
+        let access_list: Vec<u8> = (0..r.below(3)).map(|_| r.below(4) as u8).collect();
+        let duration_ms = if c19 { 35_000 } else { r.range(8_000, 20_000) };
+        let reloads: Vec<(u32, Vec<u8>, bool)> = if access_mode != 0 && !c19 && r.chance(if prop == "C11" { 700 } else { 300 }) {
+            (0..r.range(1, 2)).map(|_| (r.range(300, duration_ms - 2000) as u32, (0..r.below(3)).map(|_| r.below(4) as u8).collect(), r.chance(200))).collect()
+        } else {
+            vec![]
+        };
+        if !reloads.is_empty() {
+            // on torrents whose permission changes with a reload connections only use their own peer id
+            // (whether the tracker recorded an earlier announce is then irrelevant to what it must answer)
+            let tmp = Scn { socket_workers, swarm_workers, layout, max_offers: 0, max_scrape_torrents: 1, max_peer_age: 0, max_offer_age: 0, cleaning_interval: 0, conn_cleaning_interval: 0, max_connection_idle: 0, access_mode, access_list: access_list.clone(), sched_strategy: 0, sched_seed: 0, entropy_seed: 0, yield_permille: 0, duration_ms, conns: vec![], faults: vec![], reloads: reloads.clone(), drop_priv: false };
+            let d = dynamic_torrents(&tmp);
+            for c in conns.iter_mut() {
+                for op in c.script.iter_mut() {
+                    let t = match op {
+                        WOp::Hijack { t, .. } | WOp::SecondPid { t } | WOp::BogusAnswer { t, .. } => *t,
+                        _ => continue,
+                    };
+                    if d.contains(&t) {
+                        *op = WOp::Ann { t, ev: Some(2), left: Some(5), offers: 1, ansp: None, nowait: false };
+                    }
+                }
+            }
+        }
         Scn {
             socket_workers,
             swarm_workers,
@@ -665,14 +743,15 @@ impl Harness for WsSys {
             conn_cleaning_interval: *r.pick(&[2u64, 30]),
             max_connection_idle: if !c19 && r.chance(200) { *r.pick(&[3u32, 6]) } else { 180 },
             access_mode,
-            access_list: (0..r.below(3)).map(|_| r.below(4) as u8).collect(),
+            access_list,
             sched_strategy: r.below(4) as u8,
             sched_seed: r.next_u64(),
             entropy_seed: r.next_u64(),
             yield_permille: *r.pick(&[0u32, 200, 700]),
-            duration_ms: if c19 { 35_000 } else { r.range(8_000, 20_000) },
+            duration_ms,
             conns,
             faults,
+            reloads,
             drop_priv: r.chance(300),
         }
     }
@@ -791,10 +870,28 @@ impl Harness for WsSys {
         // ---- per-connection protocol checks
         let mut fp = report.log_hash;
         let fold = |h: &mut u64, x: u64| *h = (*h ^ x).wrapping_mul(0x100000001b3).rotate_left(9);
-        let allowed = |t: u8| match scn.access_mode {
-            1 => scn.access_list.contains(&t),
-            2 => !scn.access_list.contains(&t),
-            _ => true,
+        let dyn_t = dynamic_torrents(scn);
+        // permitted under some list in force during the run (static torrents: under the only one)
+        let allowed = |t: u8| permits(scn.access_mode, &scn.access_list, t) || scn.reloads.iter().any(|(_, l, bad)| !*bad && permits(scn.access_mode, l, t));
+        // permission at simulated time `ns`; None = within a reload's window (the signal is handled some time after it is raised)
+        let mut sched: Vec<(u64, Option<&Vec<u8>>)> = scn.reloads.iter().map(|(at, l, bad)| (*at as u64 * 1_000_000, if *bad { None } else { Some(l) })).collect();
+        sched.sort_by_key(|x| x.0);
+        let perm_at = |t: u8, ns: u64| -> Option<bool> {
+            if !dyn_t.contains(&t) {
+                return Some(permits(scn.access_mode, &scn.access_list, t));
+            }
+            let mut list: &Vec<u8> = &scn.access_list;
+            for (at, l) in &sched {
+                if ns + 50_000_000 >= *at && ns <= *at + 300_000_000 {
+                    return None;
+                }
+                if *at < ns {
+                    if let Some(l) = l {
+                        list = l;
+                    }
+                }
+            }
+            Some(permits(scn.access_mode, list, t))
         };
         let pid_of = |c: usize| id_string(&conn_peer_id(c, false));
         // sent offers: sdp -> (sender conn, torrent); sent answers: sdp -> (sender conn, ...)
@@ -876,8 +973,10 @@ impl Harness for WsSys {
                                 if *refused {
                                     violations.push(Violation::new("C17", "second-peer-id-refused", "second-peer-id-accepted", format!("connection #{} announced a second peer id for torrent {} it had not stopped and got a normal announce reply", c, t)));
                                 }
-                                if !allowed(*t) {
-                                    violations.push(Violation::new("C11", "forbidden-announce-gets-error", "forbidden-announce-accepted", format!("connection #{}: announce for forbidden torrent {} was accepted", c, t)));
+                                match perm_at(*t, sent_ns) {
+                                    Some(false) => violations.push(Violation::new("C11", "forbidden-announce-gets-error", "forbidden-announce-accepted", format!("connection #{}: announce for torrent {} sent at {} ms, which the access list in force forbids, was accepted", c, t, sent_ns / 1_000_000))),
+                                    Some(true) if dyn_t.contains(t) => stats.probe("announce-judged-against-reloaded-list"),
+                                    _ => {}
                                 }
                                 pending = None;
                             }
@@ -904,8 +1003,10 @@ impl Harness for WsSys {
                         n_replies += 1;
                         if let Some(Ev::SentAnn { t, refused: false, .. }) = pending {
                             if reason.contains("not allowed") {
-                                if allowed(*t) {
-                                    violations.push(Violation::new("C11", "permitted-announce-accepted", "permitted-announce-rejected", format!("connection #{}: announce for permitted torrent {} got {:?}", c, t, reason)));
+                                match perm_at(*t, sent_ns) {
+                                    Some(true) => violations.push(Violation::new("C11", "permitted-announce-accepted", "permitted-announce-rejected", format!("connection #{}: announce for torrent {} sent at {} ms, which the access list in force permits, got {:?}", c, t, sent_ns / 1_000_000, reason))),
+                                    Some(false) if dyn_t.contains(t) => stats.probe("announce-refused-under-reloaded-list"),
+                                    _ => {}
                                 }
                                 pending = None;
                             }
@@ -927,7 +1028,9 @@ impl Harness for WsSys {
                                 } else if !announced.contains(t) {
                                     violations.push(Violation::new("C17", "offer-routing", "offer-to-non-member", format!("connection #{} received an offer for torrent {} in which it has no (un-stopped, permitted) peer", c, t)));
                                 } else if scn.conns[*from].v6 != scn.conns[c].v6 && canon_ip(src_ip(scn.conns[*from].v6, scn.conns[*from].ac % 2, 1)).is_ipv4() != canon_ip(src_ip(scn.conns[c].v6, scn.conns[c].ac % 2, 1)).is_ipv4() {
-                                    violations.push(Violation::new("C17", "offer-routing", "offer-across-families", format!("offer from connection #{} delivered to connection #{} of the other address family", from, c)));
+                                    for p in ["C17", "C03"] {
+                                        violations.push(Violation::new(p, "offer-routing", "offer-across-families", format!("offer from connection #{} delivered to connection #{} of the other address family", from, c)));
+                                    }
                                 }
                             }
                         }
@@ -1037,8 +1140,10 @@ impl Harness for WsSys {
                 // closed around the time the observers looked: its entries may or may not have been there
                 let closed_late = log.iter().any(|e| matches!(e, Ev::ClosedLate { .. }));
                 for e in log {
-                    if let (true, Ev::SentAnn { t, .. }) = (closed_late, e) {
-                        uncertain.insert((!v4, *t));
+                    if let Ev::SentAnn { t, .. } = e {
+                        if closed_late || dyn_t.contains(t) {
+                            uncertain.insert((!v4, *t));
+                        }
                     }
                     match e {
                         Ev::SentAnn { t, stopped, refused: false, .. } if allowed(*t) => unanswered = if *stopped { None } else { Some(*t) },
@@ -1104,7 +1209,13 @@ impl Harness for WsSys {
                         } else {
                             "entry-of-open-connection-missing"
                         };
-                        let props: &[&str] = if sig != "entry-of-open-connection-missing" { &["C17"] } else { &["C17", "C08"] };
+                        // the surplus is exactly what the other address family holds: both families share one swarm
+                        let other = expect.get(&(!*obs_v6, t)).copied().unwrap_or((0, 0));
+                        // (seen from both sides, so that one entry that outlived its connection is not mistaken for it)
+                        let both = col.final_scrape.iter().filter(|(_, f)| f.get(&t).copied().unwrap_or((0, 0)) == (want.0 + other.0, want.1 + other.1)).count() == 2;
+                        let merged = both && other != (0, 0) && want != (0, 0) && !uncertain.contains(&(!*obs_v6, t)) && !raced.contains(&key) && !raced.contains(&(!*obs_v6, t));
+                        let sig = if merged { "address-families-share-a-swarm" } else { sig };
+                        let props: &[&str] = if merged { &["C17", "C03"] } else if sig != "entry-of-open-connection-missing" { &["C17"] } else { &["C17", "C08"] };
                         for p in props {
                             violations.push(Violation::new(p, "closed-connections-leave-no-peers", sig, format!("at quiescence torrent {} ({}) scrapes complete/incomplete {}/{} but the connections still open hold {}/{} ({} socket x {} swarm workers)", t, if *obs_v6 { "IPv6" } else { "IPv4" }, got.0, got.1, want.0, want.1, scn.socket_workers, scn.swarm_workers)));
                         }
@@ -1117,7 +1228,7 @@ impl Harness for WsSys {
     }
 
     fn size(scn: &Scn) -> usize {
-        scn.conns.iter().map(|c| 1 + c.script.len()).sum::<usize>() + scn.faults.len()
+        scn.conns.iter().map(|c| 1 + c.script.len()).sum::<usize>() + scn.faults.len() + scn.reloads.len()
     }
 
     fn shrink(scn: &Scn) -> Vec<Scn> {
@@ -1129,6 +1240,11 @@ impl Harness for WsSys {
                 s.conns.remove(i);
                 out.push(s);
             }
+        }
+        for i in 0..scn.reloads.len() {
+            let mut s = scn.clone();
+            s.reloads.remove(i);
+            out.push(s);
         }
         for i in 0..scn.faults.len() {
             let mut s = scn.clone();
